@@ -318,7 +318,7 @@ func cmdCheck(prop, tier string) int {
 		"wall_s":      round3(time.Since(start).Seconds()),
 		"violations":  violations,
 	}
-	if len(machinery) == 0 {
+	if len(machinery) == 0 || violations > 0 {
 		os.MkdirAll(filepath.Join(verifDir, "evidence"), 0o755)
 		data, _ := json.MarshalIndent(ev, "", " ")
 		os.WriteFile(filepath.Join(verifDir, "evidence", prop+".json"), data, 0o644)
@@ -334,6 +334,9 @@ func cmdCheck(prop, tier string) int {
 	}
 	fmt.Printf("%s %s: %d obligations (%d instances), %d discharged, %d violations, %d known findings, %d covers; %d functions; %.1fs\n",
 		prop, tier, nObl, len(all)-nCover, nDis, violations, knownHits, nCover, len(keys), time.Since(start).Seconds())
+	if violations > 0 {
+		return 1 // a violated obligation is reported even when other parts of the proof could not be bound
+	}
 	if len(machinery) > 0 {
 		return 2
 	}
